@@ -1,8 +1,10 @@
-(* C13 correspondence: (a) per parrot (instance table over the real specs), the hello's own version list
-   equals what went on the wire - the premise of the C13 theorems; (b) the client's observed decision on a
+(* C13 correspondence: (a) per client (instance table over the real specs), NegotiateVersP.versions_ok: the hello's own
+   version list equals what went on the wire, or - no supported_versions extension - it is the accepted versions up to
+   legacy_version (premise of C13_version_advertised / NegotiateVersP.version_fixed_ok / NegotiateSessP.version_sess_ok;
+   proved from the writeToUConn/ApplyConfig model in Proofs/ComposeP.v, still checked here on the real code); (b) the client's observed decision on a
    scripted server flight equals client_run. The boolean pair returned by [inst_info] (configured range within the
    advertised set, configured maximum 1.3 when the wire offers 1.3) names the specs that needed the repair. *)
-From UV Require Export Base.Common Model.Negotiate Model.NegotiateSess Proofs.NegotiateP Corr.NegotiateObs.
+From UV Require Export Base.Common Model.Negotiate Model.NegotiateSess Proofs.NegotiateP Proofs.NegotiateVersP Corr.NegotiateObs.
 
 Inductive case :=
 | CInst (v : client_view) (specmin : N) (w : wire_view)
@@ -17,9 +19,9 @@ Definition inst_info (v : client_view) (specmin : N) (w : wire_view) : bool * bo
 
 Definition check (c : case) : bool :=
   match c with
-  | CInst v m w => versions_synced v m w
-  | CVers v m w fl o => versions_synced v m w && matches (client_run v fl) o
+  | CInst v m w => versions_ok v m w
+  | CVers v m w fl o => versions_ok v m w && matches (client_run v fl) o
   | CHist v m w sess ems fl o resumed =>
-      versions_synced v m w && matches (client_run_sess env_fixed v sess ems fl) o
+      versions_ok v m w && matches (client_run_sess env_fixed v sess ems fl) o
       && implb (o_complete o) (Bool.eqb resumed (did_resume env_fixed v sess fl))
   end.
